@@ -5,7 +5,7 @@ import io
 import warnings
 import prov
 import prov.identifier
-from prov.model import DEFAULT_NAMESPACES, sorted_attributes
+from prov.model import DEFAULT_NAMESPACES, sorted_attributes, first
 from prov.constants import *  # NOQA
 from prov.serializers import Serializer
 
@@ -287,11 +287,25 @@ class ProvXMLSerializer(Serializer):
                 )
                 attributes.append((PROV["type"], value))
 
+            # A prov:hadMember element may list several prov:entity children:
+            # it stands for one membership per entity (as in the PROV-JSON reader)
+            extra_members = []
+            if rec_type == PROV_MEMBERSHIP:
+                members = [v for k, v in attributes if k == PROV_ATTR_ENTITY]
+                if len(members) > 1:
+                    attributes = [
+                        (k, v) for k, v in attributes if k != PROV_ATTR_ENTITY
+                    ] + [(PROV_ATTR_ENTITY, members[0])]
+                    extra_members = members[1:]
+
             rec = bundle.new_record(rec_type, rec_id, attributes)
 
             # Add the actual type in case a base type has been used.
             if rec_type != q_prov_name:
                 rec.add_asserted_type(q_prov_name)
+
+            for member in extra_members:
+                bundle.membership(first(rec.get_attribute(PROV_ATTR_COLLECTION)), member)
         return bundle
 
     def _derive_record_label(self, rec_type, attributes):
